@@ -62,3 +62,11 @@ FAMILIES.append(Family("generators", gen_generators, _c15.impl_scripts, _c15.mod
 for _f in FAMILIES:
     if _f.name in ("programs", "roundtrip"):
         _f.corpus = list(_f.corpus or []) + [dict(c) for c in progs.CORPUS_FEATURES]
+
+
+# ---- actions created in one thread and run (with / context() / run()) in another: the block still scopes the current action
+from props import C05 as _c05
+
+FAMILIES.append(Family("dispatch", _c05.gen_mt, oplists.run_case, oplists.model_expr, oplists.model_obs, _c05.oracle_mt, _c05.nontrivial_mt,
+                       imports=["Model.Core", "Model.Prog"], project=oplists.project, describe=oplists.describe,
+                       shard=20, coq_shard=60, case_timeout=60))
